@@ -68,7 +68,19 @@ def body(ck, F, cfg):
     for name, okk in A["guards_found"].items():
         ck.require(okk, "R10.5", f"guard:{name}", f"shape guard `{name}` -> Err(VerificationError) missing in InnerProductProof::verification_scalars", "src/inner_product_proof.rs")
     ck.require(A["guards_early"], "R10.5", "guards-before-transcript", "shape guards must precede the first transcript operation")
-    # schedule on the verifier side: dom-sep ipp, n, (L R u)*
+    round_schedule_rule(ck, F, A, "R10.6")
+    C = ipp.analyse_create(F)
+    pre_ops = [(it[1]["kind"], it[1]["label"]) for it in C["trace"] if it[0] == "op"]
+    ck.require(pre_ops[:2] == [("append_message", b"dom-sep"), ("append_u64", b"n")], "R10.6", "prover-schedule-head", f"create must start with dom-sep, n; got {pre_ops[:3]}")
+    check_verify_fn(ck, F)
+    ck.floor("round formulas", len([o for o in ck.obligations if o[0] == "R10.1"]), 13)
+    ck.floor("verifier formulas", len([o for o in ck.obligations if o[0] == "R10.3"]), 4)
+
+
+def round_schedule_rule(ck, F, A, rule):
+    """schedule on the verifier side: dom-sep ipp, n, (L R u)* -- each round challenge is squeezed from the transcript right
+    after that round's L and R were absorbed, and it is that squeeze the round's scalars u_j^2, u_j^-2 are built from
+    (R10.3's first two components are stated on the `u` challenge atoms).  Shared with C04 (binding of L_j, R_j)."""
     ops = []
     for it in A["trace"]:
         if it[0] == "op":
@@ -76,13 +88,7 @@ def body(ck, F, cfg):
         elif it[0] == "star":
             ops.append(("star", tuple((x[1]["kind"], x[1]["label"]) for x in it[1] if x[0] == "op")))
     want = [("append_message", b"dom-sep"), ("append_u64", b"n"), ("star", (("append_message", b"L"), ("append_message", b"R"), ("challenge_bytes", b"u")))]
-    ck.require(ops == want, "R10.6", "verifier-schedule", f"verifier-side schedule must be dom-sep, n, (L R u)*; got {ops}")
-    C = ipp.analyse_create(F)
-    pre_ops = [(it[1]["kind"], it[1]["label"]) for it in C["trace"] if it[0] == "op"]
-    ck.require(pre_ops[:2] == [("append_message", b"dom-sep"), ("append_u64", b"n")], "R10.6", "prover-schedule-head", f"create must start with dom-sep, n; got {pre_ops[:3]}")
-    check_verify_fn(ck, F)
-    ck.floor("round formulas", len([o for o in ck.obligations if o[0] == "R10.1"]), 13)
-    ck.floor("verifier formulas", len([o for o in ck.obligations if o[0] == "R10.3"]), 4)
+    ck.require(ops == want, rule, "verifier-schedule", f"verifier-side schedule must be dom-sep, n, (L R u)*; got {ops}")
 
 
 def run(tier):
